@@ -33,6 +33,8 @@ type Case struct {
 	// (1..3 frames, in rotation) onto one destination header that starts with A frames of
 	// length and Kr frames of capacity, see marathon.
 	Many int `json:"many,omitempty"`
+	// Pooled: the destination's root comes out of a pool allocator (after one round trip through it)
+	Pooled bool `json:"pooled,omitempty"`
 }
 
 // marathon: one destination header over tens of thousands of appends. The length grows by the
@@ -42,6 +44,10 @@ type Case struct {
 func marathon[T signal.SignalTypes](c *Case) (res kit.Result) {
 	C := c.C
 	dst := signal.Alloc[T](signal.Allocator{Channels: C, Length: c.A, Capacity: c.Kr})
+	if c.Pooled {
+		pool := signal.PoolAlloc[T](signal.Allocator{Channels: C, Length: c.A, Capacity: c.Kr})
+		dst = pool.Get()
+	}
 	model := make([]T, C*c.A, C*c.A+C*2*c.Many)
 	var srcs [3]*signal.Buffer[T]
 	for i := range srcs {
@@ -169,6 +175,10 @@ func (s *storage[T]) diff(what string) string {
 func run[T signal.SignalTypes](c *Case) (res kit.Result) {
 	C := c.C
 	root := kit.Root[T](C, c.Kr)
+	if c.Pooled {
+		root = kit.RootPooled[T](C, c.Kr)
+		res.Class("destinationFromAPool")
+	}
 	rootSt := &storage[T]{view: root, model: kit.RootModel[T](C, c.Kr)}
 	dst := root.Slice(c.A, c.B)
 	sibling := root.Slice(c.A, c.Kr) // another live view covering the destination's spare capacity
@@ -414,6 +424,9 @@ func FP(c *Case) uint64 {
 	h := kit.NewHasher()
 	h.Str(c.T)
 	h.Ints([]int{c.C, c.Kr, c.A, c.B, len(c.Srcs), c.Many})
+	if c.Pooled {
+		h.Int(1)
+	}
 	for _, s := range c.Srcs {
 		h.Str(s.Kind)
 		h.Ints([]int{s.Kr, s.A, s.B})
@@ -431,6 +444,7 @@ func Gen(t *rapid.T) *Case {
 		c.A = rapid.IntRange(0, c.Kr).Draw(t, "aMany")
 		c.B = c.A
 		c.Many = rapid.IntRange(300, 9000).Draw(t, "many")
+		c.Pooled = rapid.Bool().Draw(t, "pooledMany")
 		return c
 	}
 	c.Kr, c.A, c.B = kit.GenWindow(t, "d", 300)
@@ -493,6 +507,7 @@ func Gen(t *rapid.T) *Case {
 			break
 		}
 	}
+	c.Pooled = rapid.IntRange(0, 3).Draw(t, "pooled") == 0
 	return c
 }
 
